@@ -3,7 +3,7 @@
    over the four primitives (HKDF, AES-CBC encrypt/decrypt, HMAC-SHA256) subject to prims_ok.
    `encrypt` is MediaCipher.encrypt with fixes/C15-always-pad.patch applied;
    `encrypt_unaligned_only` is the code as shipped (refuted below).                       *)
-From YV Require Import Common.Tac C15.C15Model C15.C15Proofs C15.C15Nonvac.
+From YV Require Import Common.Tac C15.C15Model C15.C15Proofs C15.C15Nonvac C15.C15HistModel C15.C15HistProofs.
 
 Local Open Scope nat_scope.
 
@@ -138,6 +138,30 @@ Theorem C15_wrong_key : forall hkdf cbc_enc cbc_dec hmac,
     decrypt hkdf cbc_dec hmac c k' info' = ErrMac.
 Proof. exact wrong_key_thm. Qed.
 Print Assumptions C15_wrong_key.
+
+(* A MediaCipher OBJECT driven through any history of calls (C15HistModel: `run mode st calls`):
+   without a memo (the shipped class) or with a memo of the last HKDF expansion keyed on
+   (media key, kind), every call of every history returns what the pure function gives for that
+   call's arguments alone -- for arbitrary primitives, no hypothesis. *)
+Theorem C15_history_independent : forall hkdf cbc_enc cbc_dec hmac mode, mode <> MemoKeyOnly ->
+  forall calls st, memo_inv hkdf st ->
+    run hkdf cbc_enc cbc_dec hmac mode st calls = map (pure_call hkdf cbc_enc cbc_dec hmac) calls.
+Proof. exact history_independent_thm. Qed.
+Print Assumptions C15_history_independent.
+
+(* a memo keyed on the media key only is NOT history independent: after encrypting under kind i1,
+   decrypting that file under any other kind i2 returns the plaintext instead of rejecting, and
+   encrypting under i2 returns kind i1's file (witness of the seeded regression C15-1) *)
+Theorem C15_memo_by_key_refuted : forall hkdf cbc_enc cbc_dec hmac,
+  prims_ok hkdf cbc_enc cbc_dec hmac ->
+  forall p k i1 i2,
+    run hkdf cbc_enc cbc_dec hmac MemoKeyOnly None
+        [CEnc p k i1; CDec (encrypt hkdf cbc_enc hmac p k i1) k i2] =
+      [OBytes (encrypt hkdf cbc_enc hmac p k i1); ORes (Ok p)] /\
+    run hkdf cbc_enc cbc_dec hmac MemoKeyOnly None [CEnc p k i1; CEnc p k i2] =
+      [OBytes (encrypt hkdf cbc_enc hmac p k i1); OBytes (encrypt hkdf cbc_enc hmac p k i1)].
+Proof. exact memo_by_key_refuted_thm. Qed.
+Print Assumptions C15_memo_by_key_refuted.
 
 (* the hypotheses are satisfiable and the theorems yield concrete conclusions (toy instance) *)
 Theorem C15_nonvacuous :
